@@ -7,4 +7,4 @@ META = {"text": 'Same pipeline on barrier programs (sizes 1..6, repeated use, mo
 
 
 def run(ctx):
-    kernel_sync.run(ctx, "bar", 100, 1000)
+    kernel_sync.run(ctx, "bar", 100, 400)
